@@ -124,9 +124,7 @@ func (wd *World) runOp(op Op) {
 		c := r.begin(opAdd, q.idx, s.N)
 		s.AddInv = c.Inv
 		q.addsInvoked++
-		r.lastGen = ""
 		h, ok := q.add(s.N, s.Prio, s.ID)
-		s.genID = r.lastGen
 		c.OK = ok
 		if !s.AcceptKnown {
 			s.AcceptKnown, s.Accepted = true, ok
@@ -181,7 +179,14 @@ func (wd *World) runOp(op Op) {
 			return
 		}
 		c := r.begin(opPurge, q.idx, -1)
+		r.purgers = append(r.purgers, simrt.CurID())
 		q.purge()
+		for i, t := range r.purgers {
+			if t == simrt.CurID() {
+				r.purgers = append(r.purgers[:i:i], r.purgers[i+1:]...)
+				break
+			}
+		}
 		r.end(c)
 	case opCloseQueue:
 		q := wd.queue(op.Q)
